@@ -24,7 +24,51 @@ ASSUMPTIONS = ["only list-level edits of returned token lists are in the history
 SHARDS = {"quick": 8, "thorough": 16}
 DEADLINE = {"quick": 50, "thorough": 420}
 REQUIRED = {"history:compared": 1000, "history:tokenize-compared": 1000, "history:repeat-query": 1000, "history:after-failure": 500,
-            "calls:clear_cache": 50, "calls:edits": 500, "histories:on-the-long-lived-parser": 20, "histories:deep-failures-in-pool": 20}
+            "calls:clear_cache": 50, "calls:edits": 500, "histories:on-the-long-lived-parser": 20, "histories:deep-failures-in-pool": 20, "history:deep-chain-repeated": 5}
+
+
+def deep_repeat(rec):
+    """the same very long chain asked several times of one parser, under the interpreter's DEFAULT
+    recursion limit (the shards otherwise raise it): whatever the first answer was (a tree: long
+    sums are built by a loop, not by recursion), the later answers and a fresh parser's answer must
+    be of the same kind.  Only outcomes are compared here, the trees are far too deep to walk."""
+    import sys
+    from mathy_core.parser import ExpressionParser
+
+    old = sys.getrecursionlimit()
+    for terms, op in ((300, " + "), (480, " + "), (520, " - "), (700, " + "), (900, " + "), (600, " * ")):
+        text = op.join(f"{(i % 9) + 1}{'xyz'[i % 3]}" for i in range(terms))
+        p = ExpressionParser()
+        outs = []
+        sys.setrecursionlimit(1000)
+        try:
+            for who in (p, p, p, None, p):
+                q = who if who is not None else ExpressionParser()
+                if who is None:
+                    p.clear_cache()
+                    continue
+                try:
+                    q.parse(text)
+                    outs.append("tree")
+                except RecursionError:
+                    outs.append("RecursionError")
+                except Exception as e:
+                    outs.append(type(e).__name__)
+            try:
+                ExpressionParser().parse(text)
+                fresh = "tree"
+            except RecursionError:
+                fresh = "RecursionError"
+            except Exception as e:
+                fresh = type(e).__name__
+        finally:
+            sys.setrecursionlimit(old)
+        rec.ev()
+        rec.arm("history:deep-chain-repeated")
+        if any(o != fresh for o in outs):
+            rec.violation("C12", "history/outcome", "a used parser answers differently from a fresh parser",
+                          {"text": text[:200], "deep_repeat": True, "summary": f"a chain of {terms} terms ('{text[:30]}...') parsed 3 times, cache cleared, parsed again, under the default "
+                           f"recursion limit: outcomes {outs}, a fresh parser: {fresh}"})
 
 
 def run(rec, cfg):
@@ -34,6 +78,9 @@ def run(rec, cfg):
     MP.attach_parser_tokenize("C12")
     rng = cfg.rng("c12")
     corp = WT.corpus()
+    W8.two_parsers(rec, rng, corp, "C12", cfg.scale(6, 200))
+    if cfg.shard == 1 % cfg.nshards:
+        deep_repeat(rec)
     # one parser per shard lives through every history of the shard (thousands of calls, hundreds
     # of failed parses of every kind); every other history runs on a parser of its own
     elder = ExpressionParser()
@@ -69,6 +116,16 @@ def run(rec, cfg):
 
 
 def replay(rec, cfg, w):
+    if w.get("deep_repeat"):
+        deep_repeat(rec)
+        return
+    if w.get("two_parsers"):
+        from ..workloads import histories as _W8
+        from ..workloads import text as _WT2
+
+        MP.attach_parser("C12", {"grammar", "closure"})
+        _W8.two_parsers(rec, cfg.rng("replay-two"), _WT2.corpus(), "C12", 40)
+        return
     from mathy_core.parser import ExpressionParser
 
     MP.attach_parser("C12", {"history"}, with_budget=False)
